@@ -18,7 +18,7 @@ TEXT = {
     "C12": "partial proof: closure clause for every input and matcher (C12_closure), Extract = first-wins fold in source order; label normalisation tied through the generated case-folding table and judged against an independent normaliser on generated label pairs",
     "C13": "partial proof: recognizer theorems fix the shape at creation for list markers, fences, ATX and setext lines; other shapes decided by (kind, span) correspondence plus the shape oracle",
     "C14": "partial proof: padding clause for any block machine (nb_shift, skip_blank_lines); recognizers insensitive to line-ending style through their declarative definitions; CRLF/CR and final-newline clauses decided by correspondence on the variants plus the oracle",
-    "C15": "full proof on the model: every recognizer equals (or is sound and complete for) its declarative definition on every line, classifiers over all 256 bytes, e-mail grammar, URI alphabet / well-formed escapes / idempotence; classifier bodies and constants are regenerated from /repo's source on every run (TieGen); recognizers tied by exhaustive correspondence through the verif hook",
+    "C15": "full proof on the model: every recognizer equals (or is sound and complete for) its declarative definition on every line, classifiers over all 256 bytes, e-mail grammar, URI alphabet / well-formed escapes / idempotence; classifier bodies and constants are regenerated from /repo's source on every run (TieClassify.v, TieBlocks.v, TieRender.v); recognizers tied by exhaustive correspondence through the verif hook",
     "C16": "re-parse oracle on the implementation (every root block re-parsed and compared node by node) plus model/implementation tree correspondence; supporting invariants machine-checked; no theorem states the re-parse property yet",
     "C17": "proof: first clause for whole documents on the renderer model (C17_only_lt_escaped); second clause for filterRaw against a WHATWG data-state tokenizer fragment for prefix-closed predicates (no_rejected_start, start_tag_origin); tie: model renderer+filter on the implementation's tree, filterRaw through the hook; oracle uses x/net/html's tokenizer",
     "C18": "full proof: the explicit-stack Walk equals the recursive traversal for every tree and every callback pair over any user state (run_refines_spec), cursor invariant at every callback (walk_cursors_ok), visit-once (visit_once); tie: event traces of the extracted model vs walk.go on the implementation's trees under random policies",
